@@ -80,7 +80,7 @@ func check(c Case, o *stats.Obs) error {
 		res = drive.Run(drive.NewHandler(slog.LevelInfo), input, drive.Options{InCap: c.InCap, OutCap: c.OutCap, Timeout: 20 * time.Second})
 		if res.TimedOut {
 			o.Key = "not-closed"
-			return fmt.Errorf("output not closed within 20 s (twice) for a %d-byte stream %x", len(input), input)
+			return fmt.Errorf("no progress for 20 s and output not closed (twice) for a %d-byte stream %x", len(input), input)
 		}
 	}
 	if res.Panic != "" {
